@@ -3206,10 +3206,28 @@ sse_rule_convsssql_sse41 (OrcCompiler *p, void *user, OrcInstruction *insn)
 {
   const int src = p->vars[insn->src_args[0]].alloc;
   const int dest = p->vars[insn->dest_args[0]].alloc;
-  const int tmpc_max = orc_compiler_get_temp_constant (p, 8, INT32_MAX);
-  const int tmpc_min = orc_compiler_get_temp_constant (p, 8, INT32_MIN);
-  const int src_backup = orc_compiler_get_temp_reg (p);
-  const int tmp = orc_compiler_get_temp_reg (p);
+  int regs[5];
+  int n_regs = 0;
+  int i;
+  int tmpc_max, tmpc_min, src_backup, tmp;
+
+  // XMM0 is the implicit mask of BLENDVPD: none of the temporaries may be
+  // XMM0, which the allocator hands out when no variable lives there
+  for (i = 0; i < 5 && n_regs < 4; i++) {
+    const int reg = orc_compiler_get_temp_reg (p);
+    if (reg != X86_XMM0)
+      regs[n_regs++] = reg;
+  }
+  if (n_regs < 4) {
+    orc_compiler_error (p, "not enough temporary registers for convsssql");
+    return;
+  }
+  tmpc_max = regs[0];
+  tmpc_min = regs[1];
+  src_backup = regs[2];
+  tmp = regs[3];
+  orc_sse_load_constant (p, tmpc_max, 8, INT32_MAX);
+  orc_sse_load_constant (p, tmpc_min, 8, INT32_MIN);
   // Operate over tmp, because we don't know if src or dest are X86_XMM0
   orc_sse_emit_movdqa (p, src, tmp);
   if (src == X86_XMM0) {
